@@ -48,6 +48,26 @@ def materialise(case):
             for f in s["features"]:
                 if rf.random() < 0.17:
                     f["fuzzy"] = gen.fuzzy_kinds(rf, len(f["parts"]))
+        # own stream: qualifier values as code-built records have them (a bare string instead of a one-element list), and
+        # tandem annotations: two features of the same type, qualifiers and strand that abut inside a retained fragment and
+        # follow one another in the table (repeat units, twin sites); they carry no uid and are matched by what they denote
+        rq = gen.rng_for(case["seed"], PROP, "qualifier-shapes", case["enzyme"], case["i"])
+        for s in [m["vector"]] + m["modules"]:
+            for f in s["features"]:
+                if rq.random() < 0.2:
+                    f["quals"]["label"] = rq.choice(["ori", "a bare string", ""])
+            b = s["built"]
+            if b["frag_len"] >= 2 and rq.random() < 0.3:
+                n = len(s["seq"])
+                p0 = (b["frag_start_unrotated"] - b["rot_left"]) % n
+                a = rq.randint(0, b["frag_len"] - 2)
+                mid = rq.randint(a + 1, b["frag_len"] - 1)
+                e = rq.randint(mid + 1, b["frag_len"])
+                st = rq.choice([1, -1, None])
+                quals = rq.choice([{}, {"note": ["repeat unit"]}, {"label": "unit"}])
+                twins = [{"type": "misc_feature", "parts": [[p0 + x, p0 + y, st]], "quals": dict(quals)} for x, y in ((a, mid), (mid, e))]
+                at = rq.randint(0, len(s["features"]))
+                s["features"][at:at] = twins
         return m
     return case
 
@@ -194,7 +214,8 @@ def execute(mat, ctx):
                 if len(spec["features"]) > 1:
                     del spec["features"][0]
                 for f in spec["features"]:
-                    f["quals"]["uid"] = [f["quals"]["uid"][0] + ".cur"]
+                    if "uid" in f["quals"]:
+                        f["quals"]["uid"] = [f["quals"]["uid"][0] + ".cur"]
                 e.record = gen.make_record(spec)
             with warnings.catch_warnings():
                 warnings.simplefilter("ignore")
@@ -205,7 +226,7 @@ def execute(mat, ctx):
             ctx.count("c08_reassembled_after_record_replaced")
         sig = [mat["enzyme"], mat["vector"]["seq"], [m["seq"] for m in mat["modules"]], [f["parts"] for f in mat["vector"]["features"]]]
         sample = {"kind": "generated", "enzyme": mat["enzyme"],
-                  "features": [[f["quals"]["uid"][0], f["quals"]["note"][0], f["parts"]] for s in [mat["vector"]] + mat["modules"] for f in s["features"]][:8]}
+                  "features": [[(f["quals"].get("uid") or ["-"])[0], (f["quals"].get("note") or ["-"])[0], f["parts"]] for s in [mat["vector"]] + mat["modules"] for f in s["features"]][:8]}
     else:
         import warnings
         vcls, vrec, mods = _embedded.registry_records(mat, with_features=False, rotate=False)
